@@ -24,3 +24,5 @@ def check(ctx, env):
     M.r8_4_write_after_auth(ctx, prog)
     M.r8_5_derivation(ctx, prog)
     M.r8_6_password_taint(ctx, prog)
+    from . import codec_rules as K
+    K.r4_5_siblings(ctx, prog, rule="R8.7")
